@@ -63,7 +63,12 @@ Inductive case :=
 | CV4Txid (ver branch : N) (txid sha : bytes)
 | CV4Tx (tag : N) (t : tx4) (o : obs4)
 | CV4Mut (field : N) (t t' : tx4) (o o' : obs4)
-| CVec (zip : N) (expected observed : bytes).   (* a published ZIP 143/243/244 vector value *)
+| CVec (zip : N) (expected observed : bytes)    (* a published ZIP 143/243/244 vector value *)
+(* the implementation panicked while computing txid / auth commitment / a signature hash of a
+   transaction it accepted through from_parts: always a property failure *)
+| CPanicTx (t : tx)
+| CPanicTx4 (t : tx4)
+| CPanicOther.
 
 Definition is_nil {A} (l : list A) : bool := match l with [] => true | _ => false end.
 Definition eval_opt (d : option dig) : option bytes := option_map eval d.
@@ -166,6 +171,7 @@ Definition prop_case (c : case) : bool :=
       (* signature hashes: equal exactly when what ZIP 143/243 define them to cover is equal *)
       && mut4_sigs_ok t t' o o'
   | CVec _ e o => bytes_eqb e o
+  | CPanicTx _ | CPanicTx4 _ | CPanicOther => false
   end.
 
 (** * Model versus the implementation's component digests *)
@@ -237,4 +243,7 @@ Definition tag_case (c : case) : N :=
   | CV4Tx tag t _ => 310 + 10 * tag + (if is_v4 (t4_ver t) then 1 else 0)
   | CV4Mut f t _ _ _ => 400 + (if is_v4 (t4_ver t) then 100 else 0) + f
   | CVec z _ _ => 1000 + z
+  | CPanicTx _ => 2000
+  | CPanicTx4 _ => 2001
+  | CPanicOther => 2002
   end.
